@@ -186,7 +186,7 @@ def sh(cmd, cwd=None, env=None, timeout=900):
 
 class Worker:
     def __init__(self, k):
-        self.dir = "/tmp/mut/w%d" % k
+        self.dir = "/tmp/mut/%d/w%d" % (os.getpid(), k)
         shutil.rmtree(self.dir, ignore_errors=True)
         os.makedirs(self.dir)
         self.repo = os.path.join(self.dir, "repo")
@@ -295,7 +295,7 @@ def run(plan, workers, per_file, seed, out):
 
     with ThreadPoolExecutor(max_workers=workers) as ex:
         list(ex.map(one, jobs))
-    shutil.rmtree("/tmp/mut", ignore_errors=True)
+    shutil.rmtree("/tmp/mut/%d" % os.getpid(), ignore_errors=True)
 
 
 def report(path):
